@@ -139,6 +139,7 @@ pub enum IEv {
     Clone { from: usize, to: usize },
     Ready { inst: usize, res: String },
     CallUnready { inst: usize },
+    Call { inst: usize },
 }
 /// Readiness script for the strict inner service (C20): what the next poll_ready returns.
 #[derive(Clone, Debug, PartialEq)]
@@ -238,6 +239,7 @@ impl tower::Service<Req> for Inner {
         let i = g.gates.len() + 1;
         let inst = self.inst;
         if g.track_inst {
+            g.log.push(IEv::Call { inst });
             if !g.ready[inst] {
                 g.log.push(IEv::CallUnready { inst });
             }
@@ -408,6 +410,7 @@ impl Sim {
                 IEv::Clone { from, to } => insts.push(json!({"k":"clone","a":from,"b":to})),
                 IEv::Ready { inst, res } => insts.push(json!({"k":"ready","a":inst,"res":res})),
                 IEv::CallUnready { inst } => insts.push(json!({"k":"unready_call","a":inst})),
+                IEv::Call { inst } => insts.push(json!({"k":"call","a":inst})),
             }
         }
         let track = g.track_inst;
@@ -417,6 +420,7 @@ impl Sim {
         m.insert("ndr".into(), json!(drops.len()));
         m.insert("si".into(), starts.first().map(|s| s["i"].clone()).unwrap_or(json!(0)));
         m.insert("sc".into(), starts.first().map(|s| s["c"].clone()).unwrap_or(json!(0)));
+        m.insert("sk".into(), starts.first().map(|s| s["key"].clone()).unwrap_or(json!(0)));
         m.insert("starts".into(), Value::Array(starts));
         m.insert("dones".into(), Value::Array(dones));
         m.insert("drops".into(), Value::Array(drops));
